@@ -26,6 +26,7 @@ import (
 	"sort"
 	"strings"
 	"testing"
+	"testing/cryptotest"
 
 	"github.com/specterops/dawgs/retriever"
 	"github.com/specterops/dawgs/verifsim/simos"
@@ -145,15 +146,23 @@ func hash64(s string) uint64 {
 	return h
 }
 
-func build(w WL, base string, counters map[string]int) (*art, error) {
+func build(t *testing.T, cfg simrt.Config, w WL, base string, counters map[string]int) (*art, error) {
 	a := &art{w: w, base: base, allowed: filepath.Join(base, "allowed"), dump: filepath.Join(base, "pristine"), counters: counters}
 	os.MkdirAll(a.allowed, 0o755)
 	os.MkdirAll(filepath.Join(base, "victim"), 0o755)
 	os.WriteFile(filepath.Join(base, "victim", "secret.txt"), []byte("do not touch"), 0o644)
 	os.WriteFile(filepath.Join(base, "passwd"), []byte("root"), 0o644)
 	src := stor.Build(w.DB)
-	if _, err := retriever.Dump(context.Background(), src, "simdb", stor.Targets(w.DB), stor.DumpOptions(a.dump, w.Opts)); err != nil {
-		return nil, fmt.Errorf("dump: %w", err)
+	// inside a simulated run the clock is the bubble's fake clock, so generated_at (and with it the
+	// manifest's length and every byte offset) is a function of the seed alone
+	var derr error
+	if c, d := stor.UnderSim(t, cfg, "build-dump", func() {
+		_, derr = retriever.Dump(context.Background(), src, "simdb", stor.Targets(w.DB), stor.DumpOptions(a.dump, w.Opts))
+	}); c != "" {
+		return nil, fmt.Errorf("dump under simulator: %s: %s", c, d)
+	}
+	if derr != nil {
+		return nil, fmt.Errorf("dump: %w", derr)
 	}
 	var err error
 	if a.manifest, err = os.ReadFile(filepath.Join(a.dump, "manifest.json")); err != nil {
@@ -987,7 +996,9 @@ func exec(t *testing.T, w WL, cfg simrt.Config) simh.Outcome {
 	}
 	defer os.RemoveAll(base)
 	defer simos.Disable()
-	a, err := build(w, base, o.Counters)
+	// key generation and HPKE encapsulation draw from crypto/rand: pin it to the run's seed
+	cryptotest.SetGlobalRandom(t, cfg.Seed)
+	a, err := build(t, cfg, w, base, o.Counters)
 	if err != nil {
 		o.Class, o.Detail = "infra", "building artefacts: "+err.Error()
 		return o
